@@ -2491,3 +2491,116 @@ mod tests {
         assert_eq!(boundary, Some(value + GROUP_DATA_CTR_EPOCH));
     }
 }
+
+#[cfg(rs_matter_verif)]
+impl Session {
+    /// Verification hook: a plain-data snapshot of this session.
+    pub fn verif_snapshot(&self) -> crate::verif::SessionSnap {
+        use crate::transport::exchange::{InitiatorState, ResponderState, Role};
+        use crate::verif::{fp, ExchangeSnap, SessionSnap};
+
+        let (mode, cat_ids, group_id) = match &self.mode {
+            SessionMode::PlainText => (0, [0; MAX_CAT_IDS_PER_NOC], 0),
+            SessionMode::Pase { .. } => (1, [0; MAX_CAT_IDS_PER_NOC], 0),
+            SessionMode::Case { cat_ids, .. } => (2, *cat_ids, 0),
+            SessionMode::Group { group_id, .. } => (3, [0; MAX_CAT_IDS_PER_NOC], *group_id),
+        };
+        let (rx_max_ctr, rx_bitmap) = self.rx_ctr_state.verif_state();
+
+        SessionSnap {
+            id: self.id,
+            mode,
+            fab_idx: self.mode.fab_idx(),
+            cat_ids,
+            group_id,
+            local_nodeid: self.local_nodeid,
+            peer_nodeid: self.peer_nodeid,
+            local_sess_id: self.local_sess_id,
+            peer_sess_id: self.peer_sess_id,
+            msg_ctr: self.msg_ctr,
+            rx_max_ctr,
+            rx_bitmap,
+            enc_key_fp: fp(self.enc_key.access()),
+            dec_key_fp: fp(self.dec_key.access()),
+            att_challenge_fp: fp(self.att_challenge.access()),
+            expired: self.expired,
+            reserved: self.reserved,
+            last_use_ms: self.last_use.as_millis(),
+            peer_addr_port: match self.peer_addr {
+                Address::Udp(a) => a.port(),
+                _ => 0,
+            },
+            exchanges: self
+                .exchanges
+                .iter()
+                .enumerate()
+                .filter_map(|(index, e)| e.as_ref().map(|e| (index, e)))
+                .map(|(index, e)| ExchangeSnap {
+                    index,
+                    exch_id: e.exch_id,
+                    role: match e.role {
+                        Role::Initiator(InitiatorState::Owned) => 0,
+                        Role::Initiator(InitiatorState::Dropped) => 1,
+                        Role::Responder(ResponderState::AcceptPending) => 2,
+                        Role::Responder(ResponderState::Owned) => 3,
+                        Role::Responder(ResponderState::Dropped) => 4,
+                    },
+                    retrans: e
+                        .mrp
+                        .retrans
+                        .as_ref()
+                        .map(|r| (r.get_msg_ctr(), r.verif_counter())),
+                    ack: e.mrp.ack.as_ref().map(|a| (a.msg_ctr, a.acknowledged)),
+                    #[cfg(feature = "groups")]
+                    group_data_ctr: e.group_data_ctr,
+                    #[cfg(not(feature = "groups"))]
+                    group_data_ctr: None,
+                })
+                .collect(),
+        }
+    }
+}
+
+#[cfg(rs_matter_verif)]
+impl Sessions {
+    /// Verification hook: a plain-data snapshot of the session table.
+    pub fn verif_snapshot(&self) -> crate::verif::SessionsSnap {
+        crate::verif::SessionsSnap {
+            next_sess_unique_id: self.next_sess_unique_id,
+            next_sess_id: self.next_sess_id,
+            next_exch_id: self.next_exch_id,
+            sessions: self.sessions.iter().map(Session::verif_snapshot).collect(),
+            #[cfg(feature = "groups")]
+            group_ctrs: self.group_ctr_store.verif_entries(),
+            #[cfg(not(feature = "groups"))]
+            group_ctrs: crate::verif::Vec::new(),
+            #[cfg(feature = "groups")]
+            global_group_data_ctr: self.global_group_data_ctr,
+            #[cfg(not(feature = "groups"))]
+            global_group_data_ctr: 0,
+            #[cfg(feature = "groups")]
+            group_data_ctr_boundary: self.group_data_ctr_boundary,
+            #[cfg(not(feature = "groups"))]
+            group_data_ctr_boundary: 0,
+        }
+    }
+}
+
+#[cfg(all(rs_matter_verif, feature = "groups"))]
+impl Sessions {
+    /// Verification hook: public wrapper of [`Sessions::reserve_global_group_data_ctr`].
+    pub fn verif_reserve_global_group_data_ctr<C: Crypto>(
+        &mut self,
+        crypto: C,
+    ) -> Result<(u32, Option<u32>), Error> {
+        self.reserve_global_group_data_ctr(crypto)
+    }
+}
+
+#[cfg(rs_matter_verif)]
+impl Session {
+    /// Verification hook: public wrapper of [`Session::post_recv`].
+    pub fn verif_post_recv(&mut self, rx_header: &PacketHdr) -> Result<bool, Error> {
+        self.post_recv(rx_header)
+    }
+}
